@@ -36,6 +36,11 @@
                      payload is a report for a query when it begins with the text naming what was
                      asked followed by rgb:, its '/'-separated fields are hexadecimal numerals of which
                      the low byte counts; the strict form has exactly three fields of 1..4 digits
+     zround_model / zspec / zcase_violation   (model/InputCheck.v) the size hand-off with
+                     VAXIS_FORCE_XTWINOPS: rounds of Resize()+Render() against a terminal that reports
+                     its size; zspec is the predicate of the stream "size" read from the terminal's
+                     side (the Resize event of a round carries the size reported IN that round);
+                     clean_round: a round in which the terminal answers with its two reports
      answers_ok / fresh_ok / ccase_violation   the property predicate of the differential stream
                      "colour": every colour handed to a caller is Color(0) or the colour of a report,
                      delivered before, that names what the caller asked for; a call that meets no
@@ -254,6 +259,27 @@ Proof.
   exact (handle_predicate_sound bits bs (p, rq, rs, sz, uc, sd, lc, lf, lb) steps kt bt obs H).
 Qed.
 Print Assumptions C03_handle_predicate_sound.
+
+(* The size hand-off (VAXIS_FORCE_XTWINOPS): "a size reply answers its own request".  For every
+   history of rounds in which the terminal answers each request with its two reports (any sizes,
+   any number of rounds), from every state in which no token is left in chSizeDone and both
+   report capabilities are known: when the observed Resize events are the ones the model predicts
+   (no mismatch in the stream "size"), the predicate of the stream holds (zspec, read from the
+   terminal's side: the event of a round carries the size reported in that round).
+   NOT proved here: the same with user input interleaved in a round (exercised by the stream). *)
+Theorem C03_size_predicate_sound : forall dec b64 (ps : list ((Z * Z * Z * Z) * option size)) s win pix,
+  size_ready s ->
+  zrounds_model dec b64 s win (map clean_round ps) = true ->
+  zspec win pix (map clean_round ps) = true.
+Proof. intros dec b64 ps s win pix. exact (size_predicate_sound dec b64 ps s win pix). Qed.
+Print Assumptions C03_size_predicate_sound.
+(* non-vacuity: a state after start-up is size_ready, and a history with a changed and an
+   unchanged size is accepted by the model with exactly one Resize event *)
+Example C03_example_size_history :
+  size_ready (set_caps vx0 (caps_set (caps_set caps0 CChars) CPix)) /\
+  zrounds_model (fun _ => key_none) (fun _ => None) (set_caps vx0 (caps_set (caps_set caps0 CChars) CPix)) (80, 24)
+    (map clean_round [((480, 800, 30, 100), Some (mkSize 100 30 800 480)); ((480, 800, 30, 100), None)]) = true.
+Proof. split; [repeat split; reflexivity | vm_compute; reflexivity]. Qed.
 
 (* The start-up loop of New learns exactly the capabilities whose events precede the DA1 reply
    (kitty keyboard unless disabled), stops at it and leaves everything after it in the queue. *)
